@@ -23,6 +23,27 @@ def LIST5(m, name):
     raise Undecided("list of symbolic 5-bit values of arbitrary length: decided only by the bounded/exhaustive companion")
 
 
+def B2S(m, name):
+    raise Undecided("bytes -> text function: every output character is a symbolic index into the alphabet string, which pyvc can only "
+                    "enumerate (58 or 32 branches per character; tried with 2-byte inputs: more than 200 paths): decided only by the "
+                    "bounded/exhaustive companion")
+
+
+class ValueOf:
+    """input `name` is the value of the contract-language expression `expr` (over ghosts/params)"""
+
+    def __init__(self, expr, name):
+        self.expr, self.name = expr, name
+
+    def __call__(self, m, env):
+        fr = Frame(dict(env, spec=REG.spec_module), REG.spec_globals)
+        env[self.name] = m.eval_spec(self.expr, fr)
+
+    def conc(self, env, glob):
+        code, _ = rt.compile_clause(self.expr)
+        env[self.name] = eval(code, glob, env)
+
+
 # ------------------------------------------------------------------------------------------- sample material (shared with props)
 def payload_with_zeros(rng, n, z):
     """n-byte payload with exactly min(z, n) leading zero bytes"""
@@ -70,7 +91,8 @@ BIP_INVALID = ["tc1qw508d6qejxtdg4y5r3zarvary0c5xw7kg3g4ty", "bc1p0xlxvlhemja6c4
                "bc1p0xlxvlhemja6c4dqv22uapctqupfhlxm9h8z3k2e72q4k9hcz7v07qwwzcrf", "tb1p0xlxvlhemja6c4dqv22uapctqupfhlxm9h8z3k2e72q4k9hcz7vpggkg4j",
                "bc1gmk9yu", "BC13W508D6QEJXTDG4Y5R3ZARVARY0C5XW7KN40WF2", "bc1rw5uspcuh", "bc1zw508d6qejxtdg4y5r3zarvaryvqyzf3du",
                "tb1qrp33g0q5c5txsp9arysrx4k6zdkfs4nce4xj0gdcccefvpysxf3pjxtptv",
-               "bc10w508d6qejxtdg4y5r3zarvary0c5xw7kw508d6qejxtdg4y5r3zarvary0c5xw7kw5rljs90", "", "bc1", "1", "bc", "bcrt1", "tb1q"]
+               "bc10w508d6qejxtdg4y5r3zarvary0c5xw7kw508d6qejxtdg4y5r3zarvary0c5xw7kw5rljs90", "", "bc1", "1", "bc", "bcrt1", "tb1q",
+               "bcrtxqqqqqqqqqqqqqqqqqqqqqqqqqqqqqqqqqdku202"]
 
 
 def crafted_segwit(rng):
@@ -134,14 +156,12 @@ def _gen_b58_raw(name):
     return gen
 
 
-contract("buidl.helper.encode_base58", props=("C09",), params={"s": ("bytes", 0, 86)},
-         ensures=["returns()", "result == spec.text.base58_encode(s)"], gen=_gen_b58_raw("s"),
-         timeout_ms=5000, max_paths=64)
-contract("buidl.helper.encode_base58_checksum", props=("C09",), params={"raw": ("bytes", 0, 82)},
-         ensures=["returns()", "result == spec.text.base58check_encode(raw)"], gen=_gen_b58_raw("raw"),
-         timeout_ms=5000, max_paths=64)
-contract(H + "b58check_roundtrip", props=("C09",), params={"payload": ("bytes", 0, 82)},
-         ensures=["returns()", "result == payload"], gen=_gen_b58_raw("payload"), timeout_ms=5000, max_paths=64)
+contract("buidl.helper.encode_base58", props=("C09",), params={"s": B2S},
+         ensures=["returns()", "result == spec.text.base58_encode(s)"], gen=_gen_b58_raw("s"))
+contract("buidl.helper.encode_base58_checksum", props=("C09",), params={"raw": B2S},
+         ensures=["returns()", "result == spec.text.base58check_encode(raw)"], gen=_gen_b58_raw("raw"))
+contract(H + "b58check_roundtrip", props=("C09",), params={"payload": B2S},
+         ensures=["returns()", "result == payload"], gen=_gen_b58_raw("payload"))
 
 
 def _gen_b58_str(rng, tier):
@@ -173,7 +193,8 @@ contract("buidl.helper.decode_base58", props=("C09",), params={"s": STR},
 # all 32^7 symbol sequences of length 7; because the first six symbols reach every 30-bit register state, this also
 # shows that the loop body is the GF(32) shift-register step of BIP173 for every (state, symbol) pair
 contract(H + "polymod7", props=("C09", "C20"), params={"v%d" % i: V5 for i in range(7)}, bv=40, max_paths=64,
-         ensures=["returns()", "result == spec.text.bech32_polymod([v0, v1, v2, v3, v4, v5, v6])", "0 <= result < 2**30"])
+         ensures=["returns()", "result == spec.text.bech32_polymod([v0, v1, v2, v3, v4, v5, v6])", "0 <= result < 2**30"],
+         gen=lambda rng, tier: ({"v%d" % i: rng.randrange(32) for i in range(7)} for _ in range(10**6)))
 
 
 def _gen_vals(rng, tier):
@@ -225,7 +246,7 @@ def _gen_g32(rng, tier):
         yield {"s": rand_bytes(rng, rng.randrange(1, 41))}
 
 
-for _n in (2, 5, 20, 32, 40):
+for _n in (2, 5, 20, 32):
     contract("buidl.bech32.group_32#len%d" % _n, props=("C09",), params={"s": "bytes:%d" % _n}, bv=64,
              ensures=["returns()", "result == spec.text.regroup(s, 8, 5, True)"], gen=_gen_g32 if _n == 2 else None)
 
@@ -244,7 +265,7 @@ def _gen_enc(rng, tier):
         yield {"s": _spk(rng.randrange(17), rand_bytes(rng, rng.randrange(2, 41))), "network": rng.choice(NETS)}
 
 
-contract("buidl.bech32.encode_bech32_checksum", props=("C09",), params={"s": ("bytes", 4, 42), "network": STR},
+contract("buidl.bech32.encode_bech32_checksum", props=("C09",), params={"s": B2S, "network": STR},
          requires=["spec.text.witness_parts(s) is not None"],
          raises={"ValueError": "network not in spec.text.SEGWIT_HRP"},
          ensures=["implies(network in spec.text.SEGWIT_HRP, returns())",
@@ -252,7 +273,7 @@ contract("buidl.bech32.encode_bech32_checksum", props=("C09",), params={"s": ("b
                   # version 0 <=> Bech32 constant, versions 1..16 <=> Bech32m
                   "implies(returns(), spec.text.bech32_decode(result)[2] == spec.text.segwit_const(spec.text.witness_parts(s)[0]))"],
          gen=_gen_enc)
-contract(H + "segwit_roundtrip", props=("C09",), params={"spk": ("bytes", 4, 42), "network": STR},
+contract(H + "segwit_roundtrip", props=("C09",), params={"spk": B2S, "network": STR},
          requires=["spec.text.witness_parts(spk) is not None", "network in spec.text.SEGWIT_HRP"],
          ensures=["implies(spec.text.segwit_valid_program(spec.text.witness_parts(spk)[0], len(spk) - 2), returns())",
                   "implies(returns(), list(result) == [spec.text.HRP_NETS[spec.text.SEGWIT_HRP[network]][0], spec.text.witness_parts(spk)[0], spec.text.witness_parts(spk)[1]])"],
@@ -274,11 +295,79 @@ def _gen_addr(rng, tier):
         yield {"s": mutate(rng, a, T.CHARSET + "1bio")}
 
 
-_DEC = ["implies(returns(), spec.text.segwit_addr_decode(s) is not None)",
-        "implies(returns() and spec.text.segwit_addr_decode(s) is not None, result[0] in spec.text.HRP_NETS[spec.text.segwit_addr_decode(s)[0]] and (result[1], result[2]) == spec.text.segwit_addr_decode(s)[1:])"]
-contract("buidl.bech32.decode_bech32#sound", props=("C09",), params={"s": STR}, ensures=_DEC, gen=_gen_addr)
-contract("buidl.bech32.decode_bech32#complete", props=("C09",), params={"s": STR},
-         ensures=["implies(spec.text.segwit_addr_decode(s) is not None, returns())"], gen=_gen_addr)
+def crafted_by_reason(rng, reason):
+    """one string whose FIRST broken rule is `reason` (None = valid, 'upper' = valid upper case)"""
+    hrp = rng.choice(["bc", "tb", "bcrt"])
+    ver = rng.randrange(17)
+    n = rng.choice([20, 32]) if ver == 0 else rng.randrange(2, 41)
+    prog = rand_bytes(rng, n)
+    d5 = T.regroup(prog, 8, 5, True)
+    if reason is None:
+        return T.segwit_addr_encode(hrp, ver, prog)
+    if reason == "upper":
+        return T.segwit_addr_encode(hrp, ver, prog).upper()
+    if reason == "bech32":
+        a = T.segwit_addr_encode(hrp, ver, prog)
+        k = rng.randrange(6)
+        if k == 5:          # the separator '1' replaced by another character
+            i = len(hrp)
+            return a[:i] + rng.choice("xq0!b2 ") + a[i + 1:]
+        if k == 0:          # one or two substituted characters
+            return mutate(rng, a, T.CHARSET)
+        if k == 1:          # character outside the set
+            i = rng.randrange(len(hrp) + 1, len(a))
+            return a[:i] + rng.choice("1bio") + a[i + 1:]
+        if k == 2:          # mixed case
+            i = rng.choice([j for j in range(len(a)) if a[j].isalpha()])
+            return a[:i] + a[i].upper() + a[i + 1:]
+        if k == 3:          # no separator / too short
+            return rng.choice([a.replace("1", "", 1), hrp + "1" + a[-5:], hrp, ""])
+        return T.bech32_encode(hrp, [1] + T.regroup(rand_bytes(rng, 40), 8, 5, True) + [0] * 20, T.BECH32M_CONST)[:95]     # > 90 characters
+    if reason == "hrp":
+        return T.bech32_encode(rng.choice(["tc", "bcr", "b", "ltc", "bcrtt"]), [ver] + d5, T.segwit_const(ver))
+    if reason == "length":
+        k = rng.randrange(3)
+        if k == 0:
+            return T.bech32_encode(hrp, [], rng.choice([T.BECH32_CONST, T.BECH32M_CONST]))
+        v = rng.randrange(1, 17)
+        return T.bech32_encode(hrp, [v] + T.regroup(rand_bytes(rng, 1 if k == 1 else rng.randrange(41, 46)), 8, 5, True), T.BECH32M_CONST)
+    if reason == "version":
+        return T.bech32_encode(hrp, [rng.randrange(17, 32)] + d5, T.BECH32M_CONST)
+    if reason == "constant":
+        return T.bech32_encode(hrp, [ver] + d5, T.BECH32_CONST ^ T.BECH32M_CONST ^ T.segwit_const(ver))
+    if reason == "padding":
+        k = rng.randrange(2)
+        pad = 5 * len(d5) - 8 * n
+        if pad > 0 and (k == 0 or pad > 2):        # non-zero padding bits
+            return T.bech32_encode(hrp, [ver] + d5[:-1] + [d5[-1] | (1 + rng.randrange((1 << pad) - 1))], T.segwit_const(ver))
+        return T.bech32_encode(hrp, [ver] + d5 + [0], T.segwit_const(ver))       # a whole extra group: 5..7 padding bits
+    if reason == "v0-length":
+        return T.segwit_addr_encode(hrp, 0, rand_bytes(rng, rng.choice([x for x in range(2, 41) if x not in (20, 32)])), strict=False)
+    raise KeyError(reason)
+
+
+def _gen_reason(reason, extra=()):
+    def gen(rng, tier):
+        for a in extra:
+            yield {"s": a}
+        while True:
+            yield {"s": crafted_by_reason(rng, reason)}
+    return gen
+
+
+SEGWIT_REASONS = ("bech32", "hrp", "length", "version", "constant", "padding", "v0-length")
+for _r in SEGWIT_REASONS:
+    contract("buidl.bech32.decode_bech32#rejects-" + _r, props=("C09",), params={"s": STR},
+             requires=["spec.text.segwit_reject_reason(s) == %r" % _r], ensures=["not returns()"],
+             gen=_gen_reason(_r, [a for a in BIP_INVALID if T.segwit_reject_reason(a) == _r]))
+_ACC = ["returns()", "result[0] in spec.text.HRP_NETS[spec.text.segwit_addr_decode(s)[0]]",
+        "(result[1], result[2]) == spec.text.segwit_addr_decode(s)[1:]"]
+contract("buidl.bech32.decode_bech32#accepts", props=("C09",), params={"s": STR},
+         requires=["spec.text.segwit_reject_reason(s) is None", "s == s.lower()"], ensures=_ACC,
+         gen=_gen_reason(None, [a for a in BIP_VALID if a == a.lower()]))
+contract("buidl.bech32.decode_bech32#accepts-uppercase", props=("C09",), params={"s": STR},
+         requires=["spec.text.segwit_reject_reason(s) is None", "s == s.upper()"], ensures=_ACC,
+         gen=_gen_reason("upper", [a for a in BIP_VALID if a == a.upper()]))
 
 
 # ------------------------------------------------------------------------------------------- script <-> address
@@ -292,11 +381,12 @@ def _gen_tmpl(rng, tier):
         yield {"kind": kind, "h": rand_bytes(rng, T.TEMPLATE_HASHLEN[kind]), "network": rng.choice(NETS)}
 
 
-_TMPL = dict(params={"kind": STR, "h": ("bytes", 20, 32), "network": STR},
+_TMPL = dict(params={"kind": STR, "h": B2S, "network": STR},
              requires=["kind in spec.text.TEMPLATES", "len(h) == spec.text.TEMPLATE_HASHLEN[kind]", "network in spec.text.NETWORKS"])
-contract(H + "spk_raw", props=("C09",), ensures=["returns()", "result == spec.text.template_spk(kind, h)"],
-         params={"kind": STR, "h": ("bytes", 20, 32)}, requires=_TMPL["requires"][:2],
-         gen=lambda rng, tier: ({"kind": d["kind"], "h": d["h"]} for d in _gen_tmpl(rng, tier)))
+for _k in T.TEMPLATES:      # the script half of the address map, symbolically for every hash value
+    contract(H + "spk_raw#" + _k, props=("C09",), params={"kind": ("const", _k), "h": "bytes:%d" % T.TEMPLATE_HASHLEN[_k]},
+             ensures=["returns()", "result == spec.text.template_spk(kind, h)", "spec.text.classify_spk(result) == (kind if kind != 'p2wsh' and kind != 'p2wpkh' else ('p2wpkh' if len(h) == 20 else 'p2wsh'), h)"],
+             gen=(lambda k: (lambda rng, tier: ({"kind": k, "h": rand_bytes(rng, T.TEMPLATE_HASHLEN[k])} for _ in range(50))))(_k))
 contract(H + "spk_address", props=("C09",), ensures=["returns()", "result == spec.text.spk_to_address(spec.text.template_spk(kind, h), network)"],
          gen=_gen_tmpl, **_TMPL)
 _CLS = "{'p2pkh': 'P2PKHScriptPubKey', 'p2sh': 'P2SHScriptPubKey', 'p2wpkh': 'P2WPKHScriptPubKey', 'p2wsh': 'P2WSHScriptPubKey', 'p2tr': 'P2TRScriptPubKey'}[kind]"
@@ -306,39 +396,58 @@ for _f in ("addr_roundtrip", "txout_roundtrip"):
              gen=_gen_tmpl, **_TMPL)
 
 
-def _gen_anyaddr(rng, tier):
-    # the five templates on the four networks
-    import itertools
-    for d in itertools.islice(_gen_tmpl(rng, tier), 60):
-        yield {"addr": T.spk_to_address(T.template_spk(d["kind"], d["h"]), d["network"])}
-    # base58check strings that are NOT addresses: other version bytes (same leading character), other lengths, WIF, xpub
-    for ver in (0x01, 0x04, 0x06, 0x07, 0x6E, 0x70, 0x71, 0xC3, 0xC5, 0xFF, 0x90):
-        yield {"addr": T.base58check_encode(bytes([ver]) + rand_bytes(rng, 20))}
-    for ver in (0x00, 0x05, 0x6F, 0xC4):
-        for n in (0, 1, 19, 21, 32):
-            yield {"addr": T.base58check_encode(bytes([ver]) + rand_bytes(rng, n))}
-    for s in sample_b58_strings(rng):
-        yield {"addr": s}
-    # segwit strings that are not the standard templates / not valid
-    for a in BIP_VALID + BIP_INVALID + crafted_segwit(rng):
-        yield {"addr": a}
-    for hrp in ("bc", "tb", "bcrt"):
-        for ver, n in ((1, 20), (1, 33), (2, 32), (16, 32), (1, 2), (1, 40)):
-            yield {"addr": T.segwit_addr_encode(hrp, ver, rand_bytes(rng, n))}
-    while True:
-        kind = rng.choice(T.TEMPLATES)
-        a = T.spk_to_address(T.template_spk(kind, rand_bytes(rng, T.TEMPLATE_HASHLEN[kind])), rng.choice(NETS))
-        yield {"addr": a}
-        yield {"addr": mutate(rng, a, T.CHARSET if a[:2] in ("bc", "tb") else T.B58)}
+def crafted_address(rng, reason):
+    kind = rng.choice(T.TEMPLATES)
+    net = rng.choice(NETS)
+    if reason is None:
+        return T.spk_to_address(T.template_spk(kind, rand_bytes(rng, T.TEMPLATE_HASHLEN[kind])), net)
+    if reason == "upper":
+        kind = rng.choice(T.TEMPLATES[2:])
+        return T.spk_to_address(T.template_spk(kind, rand_bytes(rng, T.TEMPLATE_HASHLEN[kind])), net).upper()
+    if reason == "b58-version":
+        # version bytes whose 21-byte payloads start with the same character as real addresses, then any other byte
+        ver = rng.choice([0x01, 0x04, 0x06, 0x07, 0x6D, 0x6E, 0x70, 0x71, 0xC3, 0xC5, 0xFF, 0x90, rng.choice([v for v in range(256) if v not in (0, 5, 0x6F, 0xC4)])])
+        return T.base58check_encode(bytes([ver]) + rand_bytes(rng, 20))
+    if reason == "b58-length":
+        k = rng.randrange(4)
+        if k == 0:
+            return T.base58check_encode(bytes([rng.choice([0, 5, 0x6F, 0xC4])]) + rand_bytes(rng, rng.choice([0, 1, 19, 21, 32, 33])))
+        if k == 1:
+            return T.wif_encode(rng.randrange(1, T.SECP_N), rng.random() < 0.5, rng.random() < 0.5)
+        if k == 2:
+            return T.base58check_encode(bytes.fromhex(rng.choice(["0488b21e", "043587cf"])) + rand_bytes(rng, 74))
+        return T.base58check_encode(rand_bytes(rng, rng.choice([0, 2, 5, 22, 40])))
+    if reason.startswith("segwit-"):
+        return crafted_by_reason(rng, reason[7:])
+    if reason == "witness-nonstandard":
+        hrp = rng.choice(["bc", "tb", "bcrt"])
+        ver, n = rng.choice([(1, 20), (1, 33), (1, 2), (1, 40), (2, 32), (2, 20), (16, 32), (16, 2), (rng.randrange(2, 17), rng.randrange(2, 41))])
+        return T.segwit_addr_encode(hrp, ver, rand_bytes(rng, n))
+    raise KeyError(reason)
 
 
+def _gen_addr_reason(reason, extra=()):
+    def gen(rng, tier):
+        for a in extra:
+            yield {"addr": a}
+        while True:
+            yield {"addr": crafted_address(rng, reason)}
+    return gen
+
+
+ADDRESS_REASONS = ("b58-version", "b58-length", "witness-nonstandard") + tuple("segwit-" + r for r in SEGWIT_REASONS)
 for _f in ("addr_to_spk", "txout_spk"):
-    contract(H + _f + "#sound", props=("C09",), params={"addr": STR},
-             ensures=["implies(returns(), spec.text.address_to_spk(addr) is not None)",
-                      "implies(returns() and spec.text.address_to_spk(addr) is not None, result == spec.text.address_to_spk(addr)[0])"],
-             gen=_gen_anyaddr)
-    contract(H + _f + "#complete", props=("C09",), params={"addr": STR},
-             ensures=["implies(spec.text.address_to_spk(addr) is not None, returns())"], gen=_gen_anyaddr)
+    for _r in ADDRESS_REASONS:
+        contract(H + _f + "#rejects-" + _r, props=("C09",), params={"addr": STR},
+                 requires=["spec.text.address_reject_reason(addr) == %r" % _r], ensures=["not returns()"],
+                 gen=_gen_addr_reason(_r, [x for x in BIP_INVALID + BIP_VALID if T.address_reject_reason(x) == _r]))
+    contract(H + _f + "#accepts", props=("C09",), params={"addr": STR},
+             requires=["spec.text.address_reject_reason(addr) is None", "addr[:1] not in 'BT'"],
+             ensures=["returns()", "result == spec.text.address_to_spk(addr)[0]"],
+             gen=_gen_addr_reason(None, [x for x in BIP_VALID if x == x.lower() and T.address_reject_reason(x) is None]))
+    contract(H + _f + "#accepts-uppercase", props=("C09",), params={"addr": STR},
+             requires=["spec.text.address_reject_reason(addr) is None", "addr[:1] in 'BT'"],
+             ensures=["returns()", "result == spec.text.address_to_spk(addr)[0]"], gen=_gen_addr_reason("upper"))
 
 
 # ------------------------------------------------------------------------------------------- WIF
@@ -358,25 +467,51 @@ contract(H + "wif_roundtrip", props=("C09",),
          ensures=["returns()", "result == (secret, compressed, 'mainnet' if network == 'mainnet' else 'testnet')"], **_WIF)
 
 
-def _gen_wifstr(rng, tier):
-    k = rng.randrange(1, T.SECP_N)
-    kb = k.to_bytes(32, "big")
-    for ver in (0x80, 0xEF, 0x00, 0x81, 0xB0):
-        for tail in (b"", b"\x01", b"\x00", b"\x02", b"\x01\x01"):
-            yield {"s": T.base58check_encode(bytes([ver]) + kb + tail)}
-    for body in (bytes(32), T.SECP_N.to_bytes(32, "big"), b"\xff" * 32, (T.SECP_N - 1).to_bytes(32, "big"), kb[:31], kb[:20], b"", kb + kb):
-        for ver in (0x80, 0xEF):
-            yield {"s": T.base58check_encode(bytes([ver]) + body)}
-            yield {"s": T.base58check_encode(bytes([ver]) + body + b"\x01")}
-    yield {"s": ""}
-    while True:
-        s = T.wif_encode(rng.randrange(1, T.SECP_N), rng.random() < 0.5, rng.random() < 0.5)
-        yield {"s": s}
-        yield {"s": mutate(rng, s, T.B58)}
+def crafted_wif(rng, reason):
+    k = rng.randrange(1, T.SECP_N).to_bytes(32, "big")
+    ver = bytes([rng.choice([0x80, 0xEF])])
+    flag = rng.choice([b"", b"\x01"])
+    if reason is None:
+        return T.base58check_encode(ver + rng.choice([k, (1).to_bytes(32, "big"), (T.SECP_N - 1).to_bytes(32, "big")]) + flag)
+    if reason == "checksum":
+        return mutate(rng, T.base58check_encode(ver + k + flag), T.B58)
+    if reason == "length":
+        return T.base58check_encode(ver + rng.choice([k[:31], k[:20], b"", k + b"\x01\x01", k + k, k[:1], k + b"\x01" + k[:3]]))
+    if reason == "version":
+        return T.base58check_encode(bytes([rng.choice([0x00, 0x81, 0xB0, 0x7F, 0xEE, 0x6F])]) + k + flag)
+    if reason == "flag":
+        return T.base58check_encode(ver + k + bytes([rng.choice([0, 2, 0x80, 0xFF])]))
+    if reason == "range":
+        return T.base58check_encode(ver + rng.choice([bytes(32), T.SECP_N.to_bytes(32, "big"), b"\xff" * 32, (T.SECP_N + 1).to_bytes(32, "big")]) + flag)
+    raise KeyError(reason)
 
 
-contract(H + "wif_parse#sound", props=("C09",), params={"s": STR},
-         ensures=["implies(returns(), spec.text.wif_decode(s) is not None)",
-                  "implies(returns() and spec.text.wif_decode(s) is not None, tuple(result) == spec.text.wif_decode(s))"], gen=_gen_wifstr)
-contract(H + "wif_parse#complete", props=("C09",), params={"s": STR},
-         ensures=["implies(spec.text.wif_decode(s) is not None, returns())"], gen=_gen_wifstr)
+def _gen_wif_reason(reason):
+    def gen(rng, tier):
+        while True:
+            yield {"s": crafted_wif(rng, reason)}
+    return gen
+
+
+WIF_REASONS = ("checksum", "length", "version", "flag", "range")
+for _r in WIF_REASONS:
+    contract(H + "wif_parse#rejects-" + _r, props=("C09",), params={"s": STR},
+             requires=["spec.text.wif_reject_reason(s) == %r" % _r], ensures=["not returns()"], gen=_gen_wif_reason(_r))
+contract(H + "wif_parse#accepts", props=("C09",), params={"s": STR}, requires=["spec.text.wif_reject_reason(s) is None"],
+         ensures=["returns()", "tuple(result) == spec.text.wif_decode(s)"], gen=_gen_wif_reason(None))
+
+
+# ------------------------------------------------------------------------------------------- published vectors through the engine
+# The string-level contracts above are `undecided` for symbolic strings; the same clauses are additionally run by the
+# symbolic executor on the (concrete) BIP173/BIP350/wiki test vectors -- every path of the real source that these
+# vectors take is interpreted by pyvc and the clauses are checked on it.  These are enumerated inputs, not a proof.
+_VEC_B58 = ["1PMycacnJaSqwwJqjawXBErnLsZ7RkXUAs", "1PMycacnJaSqwwJqjawXBErnLsZ7RkXUA5", "1111111111111111111114oLvT2", "0OIl", "",
+            "5HueCGU8rMjxEXxiPuD5BDku4MkFqeZyd4dZ1jvhTVqvbTLvyTJ", "mnrVtF8DWjMu839VW3rBfgYaAfKk8983Xf", "3QJmnh"]
+contract("buidl.helper.raw_decode_base58#vectors", props=("C09",), params={"s": ("choice", _VEC_B58)},
+         ensures=REG.contracts["buidl.helper.raw_decode_base58"].ensures)
+_VEC_SEG = ["bc1qw508d6qejxtdg4y5r3zarvary0c5xw7kv8f3t4", "bc1sw50qgdz25j", "bc1pw5dgrnzv", "bc1gmk9yu",
+            T.bech32_encode("bc", [1] + T.regroup(b"\x75\x1e", 8, 5, True)[:-1] + [T.regroup(b"\x75\x1e", 8, 5, True)[-1] | 1], T.BECH32M_CONST)]   # non-zero padding
+_DEC = ["implies(returns(), spec.text.segwit_addr_decode(s) is not None)",
+        "implies(returns() and spec.text.segwit_addr_decode(s) is not None, result[0] in spec.text.HRP_NETS[spec.text.segwit_addr_decode(s)[0]] and (result[1], result[2]) == spec.text.segwit_addr_decode(s)[1:])",
+        "implies(spec.text.segwit_addr_decode(s) is not None, returns())"]
+contract("buidl.bech32.decode_bech32#vectors", props=("C09",), params={"s": ("choice", _VEC_SEG)}, ensures=_DEC, max_paths=64)
